@@ -269,6 +269,23 @@ def fresh_digests(prop, tier, verif_seed, indices, hashseed, workers, stat=False
     return {int(k): v for k, v in d["digests"].items() if not k.startswith("s")}, d["hashseed"]
 
 
+def _as_nondeterminism(mod, prop, scn, index, verif_seed, tier, replay_dir):
+    """For properties whose statement includes repeatability (NONDETERMINISM_IS_VIOLATION): a violation that does not
+    reproduce is re-examined as what it then is - one scenario, different results in repeated executions.  Returns the
+    reported-violation dict if a fresh interpreter confirms that, else None."""
+    if not getattr(mod, "NONDETERMINISM_IS_VIOLATION", False) or scn is None:
+        return None
+    path = os.path.join(replay_dir, f"{prop}-nondeterminism-{index}.json")
+    with open(path, "w") as f:
+        json.dump({"property": prop, "kind": "nondeterminism", "invariant": f"{prop}.reproducible_across_runs", "scenario": scn,
+                   "detail": "the same scenario gives different results in repeated executions / fresh interpreters / hash seeds",
+                   "found_at": {"verif_seed": verif_seed, "index": index, "tier": tier}}, f, indent=1)
+    rc, out = replay_fresh(path)
+    if rc == 1 and "REPRODUCED" in out:
+        return {"invariant": f"{prop}.reproducible_across_runs", "replay": path, "detail": f"run index {index} is not reproducible", "runs": 1}
+    return None
+
+
 def replay_fresh(path):
     env = dict(os.environ)
     env.pop("SIMKIT_REEXEC", None)
@@ -492,6 +509,10 @@ def run_check(prop, tier, verif_seed, workers=None, runs=None, budget_s=None):
         if got is None:  # minimiser must never lose the violation
             small, got = scn, violates(mod, scn, inv, sk)
         if got is None:
+            nd = _as_nondeterminism(mod, prop, scn, v["index"], verif_seed, tier, replay_dir) if reported_nd is None else reported_nd
+            if nd is not None:
+                reported_nd = nd  # a violation that comes and goes for one scenario: the scenario itself is not reproducible
+                continue
             print(f"HARNESS-ERROR unreplayable: {inv} at run index {v['index']} did not reproduce in-process")
             exit_code = max(exit_code, 2)
             continue
@@ -513,6 +534,10 @@ def run_check(prop, tier, verif_seed, workers=None, runs=None, budget_s=None):
         rc, out = replay_fresh(path)
         flaky = inv in getattr(mod, "FLAKY_INVARIANTS", ())
         if rc != 1 or "REPRODUCED" not in out or ("digest_match=True" not in out and not flaky):
+            nd = _as_nondeterminism(mod, prop, small, v["index"], verif_seed, tier, replay_dir) if reported_nd is None else reported_nd
+            if nd is not None:
+                reported_nd = nd
+                continue
             print(f"HARNESS-ERROR unreplayable: {inv} replay file {path} did not reproduce in a fresh interpreter (rc={rc})")
             exit_code = max(exit_code, 2)
             continue
